@@ -9,7 +9,7 @@ import hashlib, json, os, shutil, subprocess, sys, time, glob
 
 ROOT = os.path.dirname(os.path.dirname(os.path.abspath(__file__)))
 REPO = os.environ.get("VERIF_REPO", "/repo")
-WORK = os.path.join(ROOT, ".work")
+WORK = os.environ.get("VERIF_WORK") or os.path.join(ROOT, ".work")      # VERIF_WORK: a private cache/target directory (parallel self-test streams)
 DRIVER = os.path.join(ROOT, "driver", "target", "release", "factsdrv")
 
 
